@@ -63,7 +63,9 @@ def facts(dump_path):
     out = {}
     for t in toks:
         fs = probe.int_facts_for_token(t, values)
-        out[(t.line, t.col)] = (t.str, sorted((k, v) for k, v, _d in fs))
+        # every token at a position is kept: a simplification that duplicates or drops a token of the using code
+        # (e.g. a declaration split into declaration + assignment in one form only) shows as a different list
+        out.setdefault((t.line, t.col), []).append((t.str, sorted((k, v) for k, v, _d in fs)))
     return out
 
 
@@ -109,17 +111,33 @@ def one_pair(ctx, idx):
             ctx.count('skipped', 'dump-unreadable')
             return
         nfacts = 0
-        for (line, col), (tok, fl) in fa.items():
+        alines = A.split('\n')
+        for (line, col), la in fa.items():
             if line in pair.deflines:
                 continue
             cb_ = absgen.Pair.map_col(shared, line, col)
             if cb_ is None:
                 continue
-            other = fb.get((line, cb_))
-            if other is None or other[0] != tok:
+            lb = fb.get((line, cb_))
+            if lb is None:
                 continue
-            nfacts += len(fl)
-            if fl != other[1]:
+            # tokens spelled in the source at this position (expansions put further tokens at the same position)
+            src = alines[line - 1][col - 1:]
+            la = [x for x in la if src.startswith(x[0])]
+            lb = [x for x in lb if src.startswith(x[0])]
+            if not la or not lb or la[0][0] != lb[0][0]:
+                continue
+            tok = la[0][0]
+            fl, other = sorted(la, key=repr), (None, sorted(lb, key=repr))
+            nfacts += sum(len(x[1]) for x in la)
+            if len(la) != len(lb):
+                # the using code has a different number of tokens spelled here: a declaration that stays split into
+                # declaration + assignment in one form only
+                ctx.violation('split-decl:%s:%s' % (pair.kind, pair.lang),
+                              'token %r at %d:%d exists %d time(s) in the abstracted form and %d time(s) in the expanded form '
+                              '[%s]\nline: %s' % (tok, line, col, len(la), len(lb), pair.kind, alines[line - 1]),
+                              files={'a' + ext: A, 'b' + ext: B})
+            elif fl != other[1]:
                 ctx.violation('pair:%s:%s:fact@%d:%d' % (sha1(A), pair.kind, line, col),
                               'value-flow facts on token %r at %d:%d differ [%s]: abstracted %r, expanded %r\nline: %s'
                               % (tok, line, col, pair.kind, fl, other[1], A.split('\n')[line - 1]),
